@@ -227,7 +227,7 @@ impl Model {
             p.r.op = Op::Nop;
             return p;
         }
-        let sim = |m: &Model, slot: usize| (m.info.be_of(slot).kind == BeKind::Sim) as u32;
+        let sim = |m: &Model, slot: usize| m.info.be_of(slot).in_env() as u32;
         match st.op {
             Op::New => self.op_new(st, &mut p),
             Op::DropVec => {
@@ -310,6 +310,8 @@ impl Model {
                     self.born(t2);
                     self.tags_mut(slot)[p.r.i] = t2;
                     p.ev.push(Ev::Val(old));
+                    // the written value is seen identically through every other view
+                    p.ev.push(Ev::Bool(true));
                     p.nontrivial = true;
                 }
             }
@@ -693,7 +695,14 @@ impl Model {
         }
         p.relax = self.relax_base(&slots, &repl);
         if other.is_some() {
-            p.relax.prefix[o] = if repl_from_other && repl_kind == REPL_DRAIN { p.r.j } else { self.len(o) };
+            let inserts_front = st.script.iter().any(|b| (b >> 1) % ITEM_KINDS == ITEM_MOVE_INSERT);
+            p.relax.prefix[o] = if repl_from_other && repl_kind == REPL_DRAIN {
+                p.r.j
+            } else if inserts_front {
+                0
+            } else {
+                self.len(o)
+            };
         }
 
         let (start, end) = match se {
@@ -758,7 +767,7 @@ impl Model {
             if via == VIA_TYPED && !matches!(sink, ITEM_DROP | ITEM_KEEP) {
                 sink = ITEM_DROP;
             }
-            if matches!(sink, ITEM_MOVE | ITEM_LAZY) && !item_other_ok {
+            if matches!(sink, ITEM_MOVE | ITEM_LAZY | ITEM_MOVE_INSERT) && !item_other_ok {
                 sink = ITEM_DROP;
             }
             if sink == ITEM_LAZY && !self.info.cloneable {
@@ -798,13 +807,15 @@ impl Model {
                     p.ev.push(Ev::Val(t2));
                     self.died(t);
                 }
-                ITEM_MOVE => {
+                ITEM_MOVE | ITEM_MOVE_INSERT => {
                     if self.full(o) {
                         p.ev.push(Ev::Panic);
                         self.died(t);
                         panicked = true;
-                    } else {
+                    } else if sink == ITEM_MOVE {
                         self.tags_mut(o).push(t);
+                    } else {
+                        self.tags_mut(o).insert(0, t);
                     }
                 }
                 _ => {
